@@ -381,3 +381,274 @@ Proof.
       unfold Rdiv in E. rewrite Rmult_1_l in E. apply (f_equal Rinv) in E.
       rewrite !Rinv_inv in E. lra.
 Qed.
+
+(* ------------------------------------------------------------------ oriented boxes, 2D *)
+Lemma abs_term_le r q h : Rabs q <= h -> Rabs (r * q) <= Rabs (r * h).
+Proof.
+  intros H. assert (0 <= h) by (pose proof (Rabs_pos q); lra).
+  rewrite !Rabs_mult, (Rabs_right h) by lra. pose proof (Rabs_pos r). nra.
+Qed.
+
+(* a signed half-extent that makes r * (s * h) = |r * h| *)
+Lemma sign_attains r h : 0 <= h -> exists s, (s = 1 \/ s = -1) /\ r * (s * h) = Rabs (r * h).
+Proof.
+  intros Hh. destruct (Rle_dec 0 r) as [Hr|Hr].
+  - exists 1. split; [auto|]. rewrite Rabs_right by nra. ring.
+  - exists (-1). split; [auto|]. rewrite Rabs_left1 by nra. ring.
+Qed.
+
+Definition orthogonal2 (r00 r01 r10 r11 : R) : Prop :=
+  (r00 * r00 + r01 * r01 = 1 /\ r10 * r10 + r11 * r11 = 1 /\ r00 * r10 + r01 * r11 = 0) /\      (* R R^T = I *)
+  (r00 * r00 + r10 * r10 = 1 /\ r01 * r01 + r11 * r11 = 1 /\ r00 * r01 + r10 * r11 = 0).        (* R^T R = I *)
+
+Lemma rotation2_orthogonal a : orthogonal2 (cos a) (- sin a) (sin a) (cos a).
+Proof. pose proof (sin2_cos2 a) as H. unfold Rsqr in H. unfold orthogonal2. repeat split; nra. Qed.
+
+Section OBB2.
+Context (c0 c1 h0 h1 r00 r01 r10 r11 : R).
+Let o := {| o_center := [c0; c1]; o_half := [h0; h1]; o_rot := [[r00; r01]; [r10; r11]] |}.
+
+(* the set of points of the oriented box: centre + R * (local coordinates within +- half extents) *)
+Definition in_obb2 (p0 p1 : R) : Prop :=
+  exists q0 q1, Rabs q0 <= h0 /\ Rabs q1 <= h1 /\ p0 = c0 + (r00 * q0 + r01 * q1) /\ p1 = c1 + (r10 * q0 + r11 * q1).
+
+Lemma obb2_inside_frame p0 p1 :
+  obb_inside ROps o [p0; p1] = true <->
+  Rabs (r00 * (p0 - c0) + r10 * (p1 - c1)) <= h0 /\ Rabs (r01 * (p0 - c0) + r11 * (p1 - c1)) <= h1.
+Proof.
+  unfold obb_inside, tr_mul_vec, dot, column, vabs, vsub; cbn.
+  rewrite !andb_true_iff, !Rleb_true, !Rplus_0_l. tauto.
+Qed.
+
+Lemma obb2_inside_geometric p0 p1 : orthogonal2 r00 r01 r10 r11 ->
+  (obb_inside ROps o [p0; p1] = true <-> in_obb2 p0 p1).
+Proof.
+  intros [(Ha & Hb & Hc) (Hd & He & Hf)]. rewrite obb2_inside_frame. split.
+  - intros [H0 H1]. exists (r00 * (p0 - c0) + r10 * (p1 - c1)), (r01 * (p0 - c0) + r11 * (p1 - c1)).
+    split; [exact H0|]. split; [exact H1|]. split.
+    + transitivity (c0 + ((r00 * r00 + r01 * r01) * (p0 - c0) + (r00 * r10 + r01 * r11) * (p1 - c1))); [rewrite Ha, Hc|]; ring.
+    + transitivity (c1 + ((r00 * r10 + r01 * r11) * (p0 - c0) + (r10 * r10 + r11 * r11) * (p1 - c1))); [rewrite Hb, Hc|]; ring.
+  - intros (q0 & q1 & H0 & H1 & -> & ->).
+    replace (r00 * (c0 + (r00 * q0 + r01 * q1) - c0) + r10 * (c1 + (r10 * q0 + r11 * q1) - c1))
+      with ((r00 * r00 + r10 * r10) * q0 + (r00 * r01 + r10 * r11) * q1) by ring.
+    replace (r01 * (c0 + (r00 * q0 + r01 * q1) - c0) + r11 * (c1 + (r10 * q0 + r11 * q1) - c1))
+      with ((r00 * r01 + r10 * r11) * q0 + (r01 * r01 + r11 * r11) * q1) by ring.
+    rewrite Hd, He, Hf. split; [replace (1 * q0 + 0 * q1) with q0 by ring|replace (0 * q0 + 1 * q1) with q1 by ring]; assumption.
+Qed.
+
+Lemma obb2_to_aabb_eq :
+  obb_to_aabb ROps o = {| a_center := [c0; c1];
+                          a_half := [Rabs (r00 * h0) + Rabs (r01 * h1); Rabs (r10 * h0) + Rabs (r11 * h1)] |}.
+Proof. unfold obb_to_aabb, abs_row_extent; cbn. rewrite !Rplus_0_l. reflexivity. Qed.
+
+Lemma aabb2_inside c0' c1' e0 e1 p0 p1 :
+  aabb_inside ROps {| a_center := [c0'; c1']; a_half := [e0; e1] |} [p0; p1] = true <->
+  Rabs (p0 - c0') <= e0 /\ Rabs (p1 - c1') <= e1.
+Proof. unfold aabb_inside, vabs, vsub; cbn. rewrite !andb_true_iff, !Rleb_true. tauto. Qed.
+
+(* the derived axis-aligned box contains every point of the oriented box *)
+Lemma obb2_to_aabb_encloses p0 p1 : orthogonal2 r00 r01 r10 r11 ->
+  obb_inside ROps o [p0; p1] = true -> aabb_inside ROps (obb_to_aabb ROps o) [p0; p1] = true.
+Proof.
+  intros Ho Hin. apply (obb2_inside_geometric p0 p1 Ho) in Hin as (q0 & q1 & H0 & H1 & -> & ->).
+  rewrite obb2_to_aabb_eq. apply aabb2_inside.
+  pose proof (abs_term_le r00 q0 h0 H0). pose proof (abs_term_le r01 q1 h1 H1).
+  pose proof (abs_term_le r10 q0 h0 H0). pose proof (abs_term_le r11 q1 h1 H1).
+  split.
+  - replace (c0 + (r00 * q0 + r01 * q1) - c0) with (r00 * q0 + r01 * q1) by ring.
+    pose proof (Rabs_triang (r00 * q0) (r01 * q1)). lra.
+  - replace (c1 + (r10 * q0 + r11 * q1) - c1) with (r10 * q0 + r11 * q1) by ring.
+    pose proof (Rabs_triang (r10 * q0) (r11 * q1)). lra.
+Qed.
+
+(* a corner of the oriented box: local coordinates (+-h0, +-h1) *)
+Definition corner2 (p0 p1 : R) : Prop :=
+  exists s0 s1, (s0 = 1 \/ s0 = -1) /\ (s1 = 1 \/ s1 = -1) /\
+    p0 = c0 + (r00 * (s0 * h0) + r01 * (s1 * h1)) /\ p1 = c1 + (r10 * (s0 * h0) + r11 * (s1 * h1)).
+
+Lemma corner2_in_obb p0 p1 : 0 <= h0 -> 0 <= h1 -> corner2 p0 p1 -> in_obb2 p0 p1.
+Proof.
+  intros Hh0 Hh1 (s0 & s1 & Hs0 & Hs1 & E0 & E1). exists (s0 * h0), (s1 * h1).
+  repeat split; auto.
+  - destruct Hs0 as [-> | ->]; [rewrite Rmult_1_l, Rabs_right by lra; lra|].
+    replace (-1 * h0) with (- h0) by ring. rewrite Rabs_Ropp, Rabs_right by lra. lra.
+  - destruct Hs1 as [-> | ->]; [rewrite Rmult_1_l, Rabs_right by lra; lra|].
+    replace (-1 * h1) with (- h1) by ring. rewrite Rabs_Ropp, Rabs_right by lra. lra.
+Qed.
+
+(* tight: every face of the derived box is touched by a corner of the oriented box *)
+Lemma obb2_to_aabb_tight : 0 <= h0 -> 0 <= h1 ->
+  let e0 := (a_half (obb_to_aabb ROps o)).[0%nat] in let e1 := (a_half (obb_to_aabb ROps o)).[1%nat] in
+  (exists p0 p1, corner2 p0 p1 /\ p0 = c0 + e0) /\ (exists p0 p1, corner2 p0 p1 /\ p0 = c0 - e0) /\
+  (exists p0 p1, corner2 p0 p1 /\ p1 = c1 + e1) /\ (exists p0 p1, corner2 p0 p1 /\ p1 = c1 - e1).
+Proof.
+  intros Hh0 Hh1. rewrite obb2_to_aabb_eq. cbn [a_half nth].
+  destruct (sign_attains r00 h0 Hh0) as (s00 & S00 & E00). destruct (sign_attains r01 h1 Hh1) as (s01 & S01 & E01).
+  destruct (sign_attains r10 h0 Hh0) as (s10 & S10 & E10). destruct (sign_attains r11 h1 Hh1) as (s11 & S11 & E11).
+  assert (neg : forall s, s = 1 \/ s = -1 -> - s = 1 \/ - s = -1) by (intros s [-> | ->]; [right|left]; lra).
+  repeat split.
+  - eexists _, _. split; [exists s00, s01; repeat split; auto|]. rewrite E00, E01. reflexivity.
+  - eexists _, _. split; [exists (- s00), (- s01); repeat split; auto|].
+    rewrite <- E00, <- E01. ring.
+  - eexists _, _. split; [exists s10, s11; repeat split; auto|]. rewrite E10, E11. reflexivity.
+  - eexists _, _. split; [exists (- s10), (- s11); repeat split; auto|].
+    rewrite <- E10, <- E11. ring.
+Qed.
+
+End OBB2.
+
+(* ------------------------------------------------------------------ oriented boxes, 3D *)
+Definition orthogonal3 (r00 r01 r02 r10 r11 r12 r20 r21 r22 : R) : Prop :=
+  (* R R^T = I : rows orthonormal *)
+  (r00 * r00 + r01 * r01 + r02 * r02 = 1 /\ r10 * r10 + r11 * r11 + r12 * r12 = 1 /\ r20 * r20 + r21 * r21 + r22 * r22 = 1 /\
+   r00 * r10 + r01 * r11 + r02 * r12 = 0 /\ r00 * r20 + r01 * r21 + r02 * r22 = 0 /\ r10 * r20 + r11 * r21 + r12 * r22 = 0) /\
+  (* R^T R = I : columns orthonormal *)
+  (r00 * r00 + r10 * r10 + r20 * r20 = 1 /\ r01 * r01 + r11 * r11 + r21 * r21 = 1 /\ r02 * r02 + r12 * r12 + r22 * r22 = 1 /\
+   r00 * r01 + r10 * r11 + r20 * r21 = 0 /\ r00 * r02 + r10 * r12 + r20 * r22 = 0 /\ r01 * r02 + r11 * r12 + r21 * r22 = 0).
+
+(* rotation about the z axis, and a cyclic axis permutation: two families of proper rotations meeting the hypothesis *)
+Lemma rotation3_z_orthogonal a : orthogonal3 (cos a) (- sin a) 0 (sin a) (cos a) 0 0 0 1.
+Proof. pose proof (sin2_cos2 a) as H. unfold Rsqr in H. unfold orthogonal3. repeat split; nra. Qed.
+Lemma rotation3_perm_orthogonal : orthogonal3 0 0 1 1 0 0 0 1 0.
+Proof. unfold orthogonal3. repeat split; lra. Qed.
+
+Section OBB3.
+Context (c0 c1 c2 h0 h1 h2 r00 r01 r02 r10 r11 r12 r20 r21 r22 : R).
+Let o := {| o_center := [c0; c1; c2]; o_half := [h0; h1; h2];
+            o_rot := [[r00; r01; r02]; [r10; r11; r12]; [r20; r21; r22]] |}.
+
+Definition in_obb3 (p0 p1 p2 : R) : Prop :=
+  exists q0 q1 q2, Rabs q0 <= h0 /\ Rabs q1 <= h1 /\ Rabs q2 <= h2 /\
+    p0 = c0 + (r00 * q0 + r01 * q1 + r02 * q2) /\ p1 = c1 + (r10 * q0 + r11 * q1 + r12 * q2) /\
+    p2 = c2 + (r20 * q0 + r21 * q1 + r22 * q2).
+
+Lemma obb3_inside_frame p0 p1 p2 :
+  obb_inside ROps o [p0; p1; p2] = true <->
+  Rabs (r00 * (p0 - c0) + r10 * (p1 - c1) + r20 * (p2 - c2)) <= h0 /\
+  Rabs (r01 * (p0 - c0) + r11 * (p1 - c1) + r21 * (p2 - c2)) <= h1 /\
+  Rabs (r02 * (p0 - c0) + r12 * (p1 - c1) + r22 * (p2 - c2)) <= h2.
+Proof.
+  unfold obb_inside, tr_mul_vec, dot, column, vabs, vsub; cbn.
+  rewrite !andb_true_iff, !Rleb_true, !Rplus_0_l. tauto.
+Qed.
+
+Lemma obb3_inside_geometric p0 p1 p2 : orthogonal3 r00 r01 r02 r10 r11 r12 r20 r21 r22 ->
+  (obb_inside ROps o [p0; p1; p2] = true <-> in_obb3 p0 p1 p2).
+Proof.
+  intros [(Ra & Rb & Rc & Rab & Rac & Rbc) (Ca & Cb & Cc & Cab & Cac & Cbc)]. rewrite obb3_inside_frame. split.
+  - intros (H0 & H1 & H2).
+    set (d0 := p0 - c0) in *. set (d1 := p1 - c1) in *. set (d2 := p2 - c2) in *.
+    exists (r00 * d0 + r10 * d1 + r20 * d2), (r01 * d0 + r11 * d1 + r21 * d2), (r02 * d0 + r12 * d1 + r22 * d2).
+    split; [exact H0|]. split; [exact H1|]. split; [exact H2|]. split; [|split].
+    + transitivity (c0 + ((r00 * r00 + r01 * r01 + r02 * r02) * d0 + (r00 * r10 + r01 * r11 + r02 * r12) * d1
+                          + (r00 * r20 + r01 * r21 + r02 * r22) * d2)); [rewrite Ra, Rab, Rac; unfold d0|]; ring.
+    + transitivity (c1 + ((r00 * r10 + r01 * r11 + r02 * r12) * d0 + (r10 * r10 + r11 * r11 + r12 * r12) * d1
+                          + (r10 * r20 + r11 * r21 + r12 * r22) * d2)); [rewrite Rb, Rab, Rbc; unfold d1|]; ring.
+    + transitivity (c2 + ((r00 * r20 + r01 * r21 + r02 * r22) * d0 + (r10 * r20 + r11 * r21 + r12 * r22) * d1
+                          + (r20 * r20 + r21 * r21 + r22 * r22) * d2)); [rewrite Rc, Rac, Rbc; unfold d2|]; ring.
+  - intros (q0 & q1 & q2 & H0 & H1 & H2 & -> & -> & ->).
+    replace (r00 * (c0 + (r00 * q0 + r01 * q1 + r02 * q2) - c0) + r10 * (c1 + (r10 * q0 + r11 * q1 + r12 * q2) - c1)
+             + r20 * (c2 + (r20 * q0 + r21 * q1 + r22 * q2) - c2))
+      with ((r00 * r00 + r10 * r10 + r20 * r20) * q0 + (r00 * r01 + r10 * r11 + r20 * r21) * q1
+            + (r00 * r02 + r10 * r12 + r20 * r22) * q2) by ring.
+    replace (r01 * (c0 + (r00 * q0 + r01 * q1 + r02 * q2) - c0) + r11 * (c1 + (r10 * q0 + r11 * q1 + r12 * q2) - c1)
+             + r21 * (c2 + (r20 * q0 + r21 * q1 + r22 * q2) - c2))
+      with ((r00 * r01 + r10 * r11 + r20 * r21) * q0 + (r01 * r01 + r11 * r11 + r21 * r21) * q1
+            + (r01 * r02 + r11 * r12 + r21 * r22) * q2) by ring.
+    replace (r02 * (c0 + (r00 * q0 + r01 * q1 + r02 * q2) - c0) + r12 * (c1 + (r10 * q0 + r11 * q1 + r12 * q2) - c1)
+             + r22 * (c2 + (r20 * q0 + r21 * q1 + r22 * q2) - c2))
+      with ((r00 * r02 + r10 * r12 + r20 * r22) * q0 + (r01 * r02 + r11 * r12 + r21 * r22) * q1
+            + (r02 * r02 + r12 * r12 + r22 * r22) * q2) by ring.
+    rewrite Ca, Cb, Cc, Cab, Cac, Cbc.
+    replace (1 * q0 + 0 * q1 + 0 * q2) with q0 by ring. replace (0 * q0 + 1 * q1 + 0 * q2) with q1 by ring.
+    replace (0 * q0 + 0 * q1 + 1 * q2) with q2 by ring. auto.
+Qed.
+
+Lemma obb3_to_aabb_eq :
+  obb_to_aabb ROps o =
+  {| a_center := [c0; c1; c2];
+     a_half := [Rabs (r00 * h0) + Rabs (r01 * h1) + Rabs (r02 * h2);
+                Rabs (r10 * h0) + Rabs (r11 * h1) + Rabs (r12 * h2);
+                Rabs (r20 * h0) + Rabs (r21 * h1) + Rabs (r22 * h2)] |}.
+Proof. unfold obb_to_aabb, abs_row_extent; cbn. rewrite !Rplus_0_l. reflexivity. Qed.
+
+Lemma aabb3_inside c0' c1' c2' e0 e1 e2 p0 p1 p2 :
+  aabb_inside ROps {| a_center := [c0'; c1'; c2']; a_half := [e0; e1; e2] |} [p0; p1; p2] = true <->
+  Rabs (p0 - c0') <= e0 /\ Rabs (p1 - c1') <= e1 /\ Rabs (p2 - c2') <= e2.
+Proof. unfold aabb_inside, vabs, vsub; cbn. rewrite !andb_true_iff, !Rleb_true. tauto. Qed.
+
+Lemma abs3_le a b c x y z : Rabs a <= x -> Rabs b <= y -> Rabs c <= z -> Rabs (a + b + c) <= x + y + z.
+Proof.
+  intros. pose proof (Rabs_triang (a + b) c). pose proof (Rabs_triang a b). lra.
+Qed.
+
+Lemma obb3_to_aabb_encloses p0 p1 p2 : orthogonal3 r00 r01 r02 r10 r11 r12 r20 r21 r22 ->
+  obb_inside ROps o [p0; p1; p2] = true -> aabb_inside ROps (obb_to_aabb ROps o) [p0; p1; p2] = true.
+Proof.
+  intros Ho Hin. apply (obb3_inside_geometric p0 p1 p2 Ho) in Hin as (q0 & q1 & q2 & H0 & H1 & H2 & -> & -> & ->).
+  rewrite obb3_to_aabb_eq. apply aabb3_inside.
+  split; [|split].
+  - replace (c0 + (r00 * q0 + r01 * q1 + r02 * q2) - c0) with (r00 * q0 + r01 * q1 + r02 * q2) by ring.
+    apply abs3_le; apply abs_term_le; assumption.
+  - replace (c1 + (r10 * q0 + r11 * q1 + r12 * q2) - c1) with (r10 * q0 + r11 * q1 + r12 * q2) by ring.
+    apply abs3_le; apply abs_term_le; assumption.
+  - replace (c2 + (r20 * q0 + r21 * q1 + r22 * q2) - c2) with (r20 * q0 + r21 * q1 + r22 * q2) by ring.
+    apply abs3_le; apply abs_term_le; assumption.
+Qed.
+
+Definition corner3 (p0 p1 p2 : R) : Prop :=
+  exists s0 s1 s2, (s0 = 1 \/ s0 = -1) /\ (s1 = 1 \/ s1 = -1) /\ (s2 = 1 \/ s2 = -1) /\
+    p0 = c0 + (r00 * (s0 * h0) + r01 * (s1 * h1) + r02 * (s2 * h2)) /\
+    p1 = c1 + (r10 * (s0 * h0) + r11 * (s1 * h1) + r12 * (s2 * h2)) /\
+    p2 = c2 + (r20 * (s0 * h0) + r21 * (s1 * h1) + r22 * (s2 * h2)).
+
+Lemma signed_half_abs s h : 0 <= h -> s = 1 \/ s = -1 -> Rabs (s * h) <= h.
+Proof.
+  intros Hh [-> | ->]; [rewrite Rmult_1_l, Rabs_right by lra; lra|].
+  replace (-1 * h) with (- h) by ring. rewrite Rabs_Ropp, Rabs_right by lra. lra.
+Qed.
+
+Lemma corner3_in_obb p0 p1 p2 : 0 <= h0 -> 0 <= h1 -> 0 <= h2 -> corner3 p0 p1 p2 -> in_obb3 p0 p1 p2.
+Proof.
+  intros Hh0 Hh1 Hh2 (s0 & s1 & s2 & Hs0 & Hs1 & Hs2 & E0 & E1 & E2). exists (s0 * h0), (s1 * h1), (s2 * h2).
+  repeat split; auto using signed_half_abs.
+Qed.
+
+Lemma obb3_to_aabb_tight : 0 <= h0 -> 0 <= h1 -> 0 <= h2 ->
+  let e0 := (a_half (obb_to_aabb ROps o)).[0%nat] in let e1 := (a_half (obb_to_aabb ROps o)).[1%nat] in
+  let e2 := (a_half (obb_to_aabb ROps o)).[2%nat] in
+  (exists p0 p1 p2, corner3 p0 p1 p2 /\ p0 = c0 + e0) /\ (exists p0 p1 p2, corner3 p0 p1 p2 /\ p0 = c0 - e0) /\
+  (exists p0 p1 p2, corner3 p0 p1 p2 /\ p1 = c1 + e1) /\ (exists p0 p1 p2, corner3 p0 p1 p2 /\ p1 = c1 - e1) /\
+  (exists p0 p1 p2, corner3 p0 p1 p2 /\ p2 = c2 + e2) /\ (exists p0 p1 p2, corner3 p0 p1 p2 /\ p2 = c2 - e2).
+Proof.
+  intros Hh0 Hh1 Hh2. rewrite obb3_to_aabb_eq. cbn [a_half nth].
+  assert (neg : forall s, s = 1 \/ s = -1 -> - s = 1 \/ - s = -1) by (intros s [-> | ->]; [right|left]; lra).
+  assert (face : forall ra rb rc, exists s0 s1 s2, (s0 = 1 \/ s0 = -1) /\ (s1 = 1 \/ s1 = -1) /\ (s2 = 1 \/ s2 = -1) /\
+            ra * (s0 * h0) + rb * (s1 * h1) + rc * (s2 * h2) = Rabs (ra * h0) + Rabs (rb * h1) + Rabs (rc * h2)).
+  { intros ra rb rc. destruct (sign_attains ra h0 Hh0) as (s0 & S0 & E0). destruct (sign_attains rb h1 Hh1) as (s1 & S1 & E1).
+    destruct (sign_attains rc h2 Hh2) as (s2 & S2 & E2). exists s0, s1, s2. rewrite E0, E1, E2. auto. }
+  destruct (face r00 r01 r02) as (a0 & a1 & a2 & A0 & A1 & A2 & EA).
+  destruct (face r10 r11 r12) as (b0 & b1 & b2 & B0 & B1 & B2 & EB).
+  destruct (face r20 r21 r22) as (g0 & g1 & g2 & G0 & G1 & G2 & EG).
+  split; [|split; [|split; [|split; [|split]]]].
+  - eexists _, _, _. split; [exists a0, a1, a2; repeat split; auto|]. rewrite EA. reflexivity.
+  - eexists _, _, _. split; [exists (- a0), (- a1), (- a2); repeat split; auto|]. rewrite <- EA. ring.
+  - eexists _, _, _. split; [exists b0, b1, b2; repeat split; auto|]. rewrite EB. reflexivity.
+  - eexists _, _, _. split; [exists (- b0), (- b1), (- b2); repeat split; auto|]. rewrite <- EB. ring.
+  - eexists _, _, _. split; [exists g0, g1, g2; repeat split; auto|]. rewrite EG. reflexivity.
+  - eexists _, _, _. split; [exists (- g0), (- g1), (- g2); repeat split; auto|]. rewrite <- EG. ring.
+Qed.
+
+End OBB3.
+
+Lemma corner2_inside c0 c1 h0 h1 r00 r01 r10 r11 p0 p1 : 0 <= h0 -> 0 <= h1 -> orthogonal2 r00 r01 r10 r11 ->
+  corner2 c0 c1 h0 h1 r00 r01 r10 r11 p0 p1 ->
+  obb_inside ROps {| o_center := [c0; c1]; o_half := [h0; h1]; o_rot := [[r00; r01]; [r10; r11]] |} [p0; p1] = true.
+Proof. intros H0 H1 Ho Hc. apply obb2_inside_geometric; [exact Ho|]. apply corner2_in_obb; assumption. Qed.
+
+Lemma corner3_inside c0 c1 c2 h0 h1 h2 r00 r01 r02 r10 r11 r12 r20 r21 r22 p0 p1 p2 :
+  0 <= h0 -> 0 <= h1 -> 0 <= h2 -> orthogonal3 r00 r01 r02 r10 r11 r12 r20 r21 r22 ->
+  corner3 c0 c1 c2 h0 h1 h2 r00 r01 r02 r10 r11 r12 r20 r21 r22 p0 p1 p2 ->
+  obb_inside ROps {| o_center := [c0; c1; c2]; o_half := [h0; h1; h2];
+                     o_rot := [[r00; r01; r02]; [r10; r11; r12]; [r20; r21; r22]] |} [p0; p1; p2] = true.
+Proof. intros H0 H1 H2 Ho Hc. apply obb3_inside_geometric; [exact Ho|]. apply corner3_in_obb; assumption. Qed.
